@@ -52,13 +52,7 @@ Definition judge_bncmp (a b : N) (o : Z * bool * N) : verdict :=
   let '(c, lt, mx) := o in
   check (Z.eqb c (if a <? b then (-1)%Z else if a =? b then 0%Z else 1%Z) && Bool.eqb lt (a <? b) && (mx =? N.max a b)).
 
-(* from_str on arbitrary text *)
-Fixpoint strip_zeros (s : text) : text :=
-  match s with c :: r => if c =? ch_zero then strip_zeros r else s | [] => [] end.
-(* the canonical decimal text denoted by an accepted unsigned literal: no sign, no leading zeros, "0" for zero *)
-Definition canon_unsigned (s : text) : text :=
-  let body := match s with c :: r => if c =? ch_plus then r else s | [] => [] end in
-  match strip_zeros body with [] => [ch_zero] | t => t end.
+(* from_str on arbitrary text (canon_unsigned: Num/Decimal.v) *)
 Definition model_bnstr (s : text) : result N := bn_from_str s.
 Definition judge_bnstr (s : text) (r : result N) : verdict :=
   match r with
@@ -129,11 +123,19 @@ Definition judge_int_obs (o : int_obs) : verdict :=
     | _ => Fails cls_none
     end.
 
+(* a literal that was accepted denotes the Int that came out: its canonical text is the Int's to_str *)
+Definition int_src_text_ok (src : int_src) (z : Z) : bool :=
+  match src with
+  | SFromStr s | SMetaKey s => text_eqb (print_Z z) (canon_signed s)
+  | _ => true
+  end.
+
 Definition judge_int (src : int_src) (o : option int_obs) : verdict :=
   match o with
   | None => match int_src_exact src with Some _ => Fails cls_none | None => Holds end   (* explicit error *)
   | Some o =>
       if match int_src_value src with Some z => negb (io_val o =? z)%Z | None => false end then Fails cls_none
+      else if negb (int_src_text_ok src (io_val o)) then Fails cls_none
       else
         match judge_int_obs o, src with
         | Fails c, SMetaKey _ => if int_in_range (io_val o) then Fails c else Fails cls_meta_key
@@ -227,7 +229,7 @@ Definition judge_bibytes (bs : bytes) (r : result (Z * bytes * result Z)) : verd
 Definition model_bistr (s : text) : result Z := bigint_from_str s.
 Definition judge_bistr (s : text) (r : result Z) : verdict :=
   match r with
-  | Ok z => check (resZ_eqb (bigint_from_str (bigint_to_str z)) (Ok z))
+  | Ok z => check (resZ_eqb (bigint_from_str (bigint_to_str z)) (Ok z) && text_eqb (print_Z z) (canon_bigint s))
   | Err => Holds
   | _ => Fails cls_none
   end.
